@@ -40,7 +40,8 @@ The translation is STRUCTURAL, statement by statement and expression by expressi
       bound inside the text itself (comprehension targets, lambda parameters). Globals and builtins (len,
       range, other functions of the module) are not arguments.
   N8  `e[i]` with i a name or a non-negative int literal is EIndex; list and tuple displays are EList.
-  N9  `raise Name(args)` -> SRaise "Name" args; `return` -> SReturn ENone; `pass` -> SSkip.
+  N9  `raise Name(args)` -> SRaise "Name" args, `raise Name` -> SRaise "Name" [] (a bare re-raising `raise` and
+      `raise ... from ...` fail closed); `return` -> SReturn ENone; `pass` -> SSkip.
   N10 `'literal'.format(args)` (message texts) is the primitive "str.format" applied to the literal and args.
   N11 STORES: an assignment to a subscript / attribute target is an assignment to its base variable, computed
       by a store primitive named by the unparsed target followed by " =" that receives the free variables
@@ -407,6 +408,8 @@ def stmt(n, ind):
         if n.cause is None and isinstance(e, ast.Call) and isinstance(e.func, ast.Name) and not e.keywords \
                 and not any(isinstance(a, ast.Starred) for a in e.args):
             return pad + 'SRaise %s %s' % (cstr(e.func.id), clist(expr(a) for a in e.args))
+        if n.cause is None and isinstance(e, ast.Name):                     # `raise ValueError`: the class, no arguments
+            return pad + 'SRaise %s []' % cstr(e.id)
         unknown(n, 'raise form')
     if isinstance(n, ast.Return):
         return pad + 'SReturn (%s)' % ('ENone' if n.value is None else expr(n.value))
